@@ -174,7 +174,14 @@ class StructureMetaType(MetaType):
                 # If a field already has an offset, it's leading
                 offset = field.offset
 
-            if align and offset is not None:
+            field_type = field.type
+            if field.bits and isinstance(field_type, EnumMetaType):
+                field_type = field_type.type
+
+            # A bit field that continues the current storage unit doesn't occupy a new position
+            continues_unit = bool(field.bits) and bits_remaining > 0 and field_type == bits_type and field.offset is None
+
+            if align and offset is not None and not continues_unit:
                 # Round to next alignment
                 offset += -offset & (field.alignment - 1)
 
@@ -182,11 +189,6 @@ class StructureMetaType(MetaType):
             alignment = max(alignment, field.alignment)
 
             if field.bits:
-                field_type = field.type
-
-                if isinstance(field_type, EnumMetaType):
-                    field_type = field_type.type
-
                 # Bit fields have special logic
                 if (
                     # Exhausted a bit field
